@@ -251,6 +251,7 @@ func init() {
 			ruleSegIntersectMirrorSem("C06.mirror.seg"),
 			ruleInsideArmMirror("C06.mirror.inside"),
 			ruleInsideArmStrict("C06.inside.strict"),
+			ruleUntouchedByWinding("C06.untouched"),
 			ruleIntersectionArgOrder("C06.sibling.args"),
 			ruleRetireBeforeRelabel("C06.retire"),
 			ruleRectSkipOnly("C06.skip-only", "(RectClip64).Execute", []string{"(RectClip64).executeInternal"}),
